@@ -237,6 +237,12 @@ func extractC08b(c *ctxT) {
 		if strings.Contains(src, ".BaseCoinToEvm(") {
 			how = append(how, "keeper|BaseCoinToEvm")
 		}
+		if strings.Contains(src, ".RemoveFromOutgoingPoolAndRefund(") {
+			how = append(how, "keeper|RemoveFromOutgoingPoolAndRefund") // refund -> erc20 HookOutgoingRefund -> ConvertCoin
+		}
+		if strings.Contains(src, ".ExecuteClaim(") {
+			how = append(how, "keeper|ExecuteClaim") // incoming bridge call: coins -> ERC-20 through BaseCoinToEvm
+		}
 		if strings.Contains(src, "handlerERC20Token(") {
 			how = append(how, "runningEVM|handlerERC20Token")
 		}
@@ -269,6 +275,16 @@ func extractC08b(c *ctxT) {
 		sb.WriteString("def handlerERC20Token_usesKeeperLevelEVM : Bool := true\n")
 	} else {
 		sb.WriteString("def handlerERC20Token_usesKeeperLevelEVM : Bool := false\n")
+	}
+	// the refund hook of the outgoing pool converts back to ERC-20 through the erc20 keeper's ConvertCoin
+	hook := false
+	if fd := c.findFunc("x/erc20/keeper", "Keeper", "HookOutgoingRefund"); fd != nil && fd.Body != nil {
+		hook = strings.Contains(c.src(fd.Body), "k.ConvertCoin(")
+	}
+	if hook {
+		sb.WriteString("def hookOutgoingRefund_usesKeeperConvertCoin : Bool := true\n")
+	} else {
+		sb.WriteString("def hookOutgoingRefund_usesKeeperConvertCoin : Bool := false\n")
 	}
 	facts["precompileTokenConversions"] = pl
 
